@@ -126,6 +126,7 @@ class Route:
 
 # =============================================================== suite 1: propagation
 class Prop:
+    RUNNER = 'run_case_approx'      # means and interpolation among the operations: compared within 1e-9 relative
     KEEP = ['get', 'reduce', 'cum', 'diff', 'transpose', 'swapaxes', 'newaxis', 'squeeze', 'flatten', 'reshape', 'reindex',
             'sort_axis', 'interp', 'take_axis', 'compress_axis', 'dropna', 'fillna', 'setna']
     DROP = ['binop', 'scalar_op', 'stack', 'concatenate', 'compare', 'neg']
